@@ -155,8 +155,8 @@ def bfs(ctx, modname: str, margs: Any, max_depth: int, label: str, max_states: i
 
     mod = importlib.import_module(modname)
     model = mod.make_model(margs)
-    impl, ref = model.initial()
-    seen = {model.canon(impl, ref): []}
+    # the runner process itself never touches the implementation (replays are forked from it later and must see a pristine image)
+    seen = {in_child(lambda: model.canon(*model.initial())): []}
     frontier: List[list] = [[]]
     total_states, total_trans = 1, 0
     unmerged = 0
@@ -171,7 +171,7 @@ def bfs(ctx, modname: str, margs: Any, max_depth: int, label: str, max_states: i
             k = chunk or max(1, min(200, len(frontier) // (ctx.workers * 4) + 1))
             keep_all = depth < nodedup_depth
             jobs = [(modname, margs, frontier[i:i + k], depth, keep_all) for i in range(0, len(frontier), k)]
-            results = pool.imap(_expand, jobs) if pool is not None and len(jobs) > 1 else map(_expand, jobs)
+            results = pool.imap(_expand, jobs) if pool is not None else (in_child(lambda j=j: _expand(j)) for j in jobs)
             nxt: List[list] = []
             for r in results:
                 total_trans += r["transitions"]
